@@ -133,9 +133,20 @@ func TestVerifC12(t *testing.T) {
 			statusable = append(statusable, c)
 		}
 	}
-	// 1. all (expected, actual) type pairs with a small valid-ish payload for the actual type
+	// 1. all (expected, actual) type pairs with a small valid-ish payload for the actual type.
+	// KeepAlive, ROAccessReport and ReaderEventNotification are never handed to a caller as a reply (C03),
+	// so SendFor never sees them: they are outside this property's domain, both as expected and as actual type.
+	unsolicited := func(c *sContainer) bool {
+		return c.TypeID == int(MsgKeepAlive) || c.TypeID == int(MsgROAccessReport) || c.TypeID == int(MsgReaderEventNotification)
+	}
 	for _, exp := range msgs {
+		if unsolicited(exp) {
+			continue
+		}
 		for _, act := range msgs {
+			if unsolicited(act) {
+				continue
+			}
 			g := &vgen{s: s, r: rng, budget: 8}
 			v := g.value(act, 3)
 			p := s.newGo(act)
